@@ -30,6 +30,9 @@ Print Assumptions C07_bare_inline_fragment_converts.
    calls): on a program whose names resolve -- every type named by a field, variable, type
    condition or fragment exists, every spread has its fragment, the root type exists: what
    gqlparser's validator guarantees and Corr/Convcorr.v re-checks on every explored program --
+   and whose positions are inside their sources (frags_posb / op_posb: for every operation,
+   variable, fragment definition, field, inline fragment and spread, line-1 is at most the number
+   of lines its source was split into; see C07_line_index_site_refuted_without_positions) --
    NONE of the unchecked map / pointer dereferences of the Go code can be reached, for every
    configuration, source text and fuel.  What remains possible in the model is only the family
    of flatten INDEX sites (fields[i] with i the position of the spread); they are exercised by
@@ -38,32 +41,70 @@ From Verif Require Import Gen.Wf Proofs.ConvertNoPanic.
 Theorem C07_converter_panics_only_at_flatten_index_sites_partial :
   forall sch cfg frags srcs ops,
   schema_okb sch = true -> frags_okb sch frags = true -> forallb (op_okb sch frags) ops = true ->
+  frags_posb srcs frags = true -> forallb (op_posb srcs) ops = true ->
   forall s, generate_types sch cfg frags srcs ops = Panic s -> flat_site s = true.
 Proof. exact converter_panics_only_at_flatten_index_sites. Qed.
 Print Assumptions C07_converter_panics_only_at_flatten_index_sites_partial.
 
 Theorem C07_converter_hypotheses_satisfiable :
-  schema_okb w_schema = true /\ frags_okb w_schema [w_frag] = true /\ forallb (op_okb w_schema [w_frag]) [w_op] = true.
+  schema_okb w_schema = true /\ frags_okb w_schema [w_frag] = true /\ forallb (op_okb w_schema [w_frag]) [w_op] = true
+  /\ frags_posb w_srcs [w_frag] = true /\ forallb (op_posb w_srcs) [w_op] = true.
 Proof. exact w_program_is_wf. Qed.
 Print Assumptions C07_converter_hypotheses_satisfiable.
+
+(* the position hypothesis is NEEDED (REFUTED without it): parsePrecedingComment indexes the
+   lines the source was split into with the node's line number (`sourceLines[i-1]` for i from
+   pos.Line-1 down).  A program whose names all resolve, against a source with fewer lines than
+   its positions say -- one query with two fields, the second on line 3, and a source that was
+   split into a single line (what a file with bare-CR line ends was to the splitting at LF) --
+   reaches that index out of range: a Panic that is not a flatten site. *)
+Theorem C07_line_index_site_refuted_without_positions :
+  exists sch cfg frags srcs ops m,
+    schema_okb sch = true /\ frags_okb sch frags = true /\ forallb (op_okb sch frags) ops = true
+    /\ generate_types sch cfg frags srcs ops = Panic m /\ flat_site m = false.
+Proof.
+  exists w_schema, w_cfg, [], w_cr_srcs, [w_cr_op], (b "index out of range: sourceLines").
+  repeat split; vm_compute; reflexivity.
+Qed.
+Print Assumptions C07_line_index_site_refuted_without_positions.
+
+(* the model of the access itself: it panics exactly when the line number exceeds the lines *)
+From Verif Require Import Proofs.DirectiveProofs.
+Theorem C07_line_index_panics_iff_out_of_range :
+  forall src line,
+    (exists m, lines_above src line = Panic m) <-> (List.length src < N.to_nat line - 1)%nat.
+Proof. exact lines_above_panics_iff. Qed.
+Print Assumptions C07_line_index_panics_iff_out_of_range.
 
 (* FULL no-panic theorem for the converter.  With the slightly stronger shape facts that the
    grammar and the preprocessing give (every field has a non-empty alias; a selection set has at
    most one synthesised __typename and at least one other node) the flatten index sites are
    unreachable too: validateFlattenOption only returns an index for `{ ...F }`, `{ __typename ...F }`
    or `{ ...F __typename }` with a matching fragment, and then the converted fields have that
-   index.  So the model of convert.go NEVER reaches a Panic site, for every schema, configuration,
-   fragment table, source text, operation list and fuel.  (OutOfFuel is not excluded here: the
-   correspondence exercises it.) *)
+   index.  The strong form also contains the position check (pos_okb for every node, against the
+   source of its operation / fragment definition).  So the model of convert.go NEVER reaches a
+   Panic site, for every schema, configuration, fragment table, source text, operation list and
+   fuel.  (OutOfFuel is not excluded here: the correspondence exercises it.) *)
 From Verif Require Import Proofs.ConvertNoPanicFull.
 Theorem C07_converter_never_panics :
   forall sch cfg frags srcs ops,
-  schema_okb sch = true -> frags_okb2 sch frags = true -> forallb (op_okb2 sch frags) ops = true ->
+  schema_okb sch = true -> frags_okb2 sch frags srcs = true -> forallb (op_okb2 sch frags srcs) ops = true ->
   forall s, generate_types sch cfg frags srcs ops <> Panic s.
 Proof. exact converter_never_panics. Qed.
 Print Assumptions C07_converter_never_panics.
 
 Theorem C07_converter_full_hypotheses_satisfiable :
-  schema_okb w_schema = true /\ frags_okb2 w_schema [w_frag] = true /\ forallb (op_okb2 w_schema [w_frag]) [w_op] = true.
+  schema_okb w_schema = true /\ frags_okb2 w_schema [w_frag] w_srcs = true
+  /\ forallb (op_okb2 w_schema [w_frag] w_srcs) [w_op] = true.
 Proof. exact w_program_is_wf2. Qed.
 Print Assumptions C07_converter_full_hypotheses_satisfiable.
+
+(* the strong form (the one Corr/Convcorr.v evaluates on every explored program) implies all the
+   hypotheses of the partial theorem, the position hypotheses included *)
+Theorem C07_strong_hypotheses_imply_partial_hypotheses :
+  forall sch frags srcs ops,
+  frags_okb2 sch frags srcs = true -> forallb (op_okb2 sch frags srcs) ops = true ->
+  frags_okb sch frags = true /\ forallb (op_okb sch frags) ops = true
+  /\ frags_posb srcs frags = true /\ forallb (op_posb srcs) ops = true.
+Proof. exact strong_wf_implies_weak. Qed.
+Print Assumptions C07_strong_hypotheses_imply_partial_hypotheses.
